@@ -140,8 +140,21 @@ def stores_by_base(st):
     return out
 
 
-RESET_METHODS = ("clear", "resize", "operator=", "assign", "erase")
+RESET_METHODS = ("clear", "operator=", "assign", "erase")    # not resize(): it keeps the leading elements of a non-empty vector
 RESET_BY_ADDRESS = ("copier_clear",)     # Phreeqc::copier_clear(&m) empties the three vectors of copier m (checked by unit C07.reset.copier_clear)
+
+
+def resized_and_fully_rewritten(s, base):
+    """resize(N) alone keeps the old leading elements of a non-empty vector; it counts as a reset only with N constant and
+    operator[] on every index 0..N-1 afterwards on the path (the keycount idiom: resize + zeroing loop)"""
+    for e in s.events:
+        if hasattr(e, "recv") and e.recv is base and e.name.split("::")[-1] == "resize" and e.guard is tm.TRUE and e.args and isinstance(e.args[0], tm.T) and e.args[0].op == "num":
+            n = int(e.args[0].args[0])
+            idxs = {int(x.args[0].args[0]) for x in s.events if hasattr(x, "recv") and x.recv is base and x.name.split("::")[-1] == "operator[]" and x.guard is tm.TRUE
+                    and x.args and isinstance(x.args[0], tm.T) and x.args[0].op == "num"}
+            if all(i in idxs for i in range(n)):
+                return True
+    return False
 
 
 def unit_phreeqc_members(twin=False):
@@ -195,6 +208,9 @@ def unit_phreeqc_members(twin=False):
                 if not touched:
                     touched = any(e.name.split("::")[-1] in RESET_BY_ADDRESS and e.guard is tm.TRUE and any(isinstance(a, tm.T) and a is base for a in e.args)
                                   for e in s.events if hasattr(e, "recv"))
+                resized = any(e.recv is not None and isinstance(e.recv, tm.T) and inside(e.recv, base) and e.name.split("::")[-1] == "resize" and e.guard is tm.TRUE for e in s.events if hasattr(e, "recv"))
+                if not touched and resized:
+                    touched = resized_and_fully_rewritten(s, base)
                 if not touched and not is_container_type(typ):
                     # plain struct / array: some element or field of it is written with a pre-state-independent value
                     ws = [(k, idx, v) for (k, idx, v) in stores_by_base(s) if inside(idx[0], base)]
@@ -246,7 +262,7 @@ def unit_unload_wrapper(twin=False):
             for s in finals:
                 if any(k[1] == name and idx[0] is THIS for (k, idx, v) in stores_by_base(s)):
                     written = True
-                if any(e.recv is not None and isinstance(e.recv, tm.T) and inside(e.recv, base) and e.name.split("::")[-1] in RESET_METHODS + ("operator[]",) for e in s.events):
+                if any(e.recv is not None and isinstance(e.recv, tm.T) and inside(e.recv, base) and e.name.split("::")[-1] in RESET_METHODS + ("resize", "operator[]") for e in s.events):
                     written = True
             r.add(oname + ".survives_unchanged(%s)" % why.split(" (")[0].replace(" ", "_"), FAILED if written else DISCHARGED, "term-inspection", 0, why if not written else "a survivor is written by UnLoadDatabase", kind="frame")
             continue
